@@ -56,7 +56,7 @@ fn any_attrs(max_idle: usize) -> SortAttributes {
     a
 }
 
-//@H props=C03,C04,C20 kind=proof tier=quick stubs=yes fn=<SortAttributes-as-TrackAttributes>::compatible
+//@H props=C02,C03,C04,C20 kind=proof tier=quick stubs=yes fn=<SortAttributes-as-TrackAttributes>::compatible
 //@H clause: compatible(a, b) == (same scene && |epoch gap| <= max_idle && validate(gap, D)) where D = dist_in_2r(last predicted box of a, last predicted box of b); callers checked against the callee contracts of dist_in_2r / validate (recording stubs)
 #[kani::proof]
 #[kani::stub(Universal2DBox::dist_in_2r, stub_dist_in_2r)]
@@ -72,8 +72,8 @@ fn c20_sort_compatible() {
     kani::cover!(!r, "reach/c20_sort_compatible rejected pair");
     let gap: u128 = (a.last_updated_epoch as i128 - b.last_updated_epoch as i128).unsigned_abs();
     let (val, val_args, val_calls, dist, dist_args) = unsafe { (VAL, VAL_ARGS, VAL_CALLS, DIST, DIST_ARGS) };
-    assert!(a.scene_id == b.scene_id || !r, "C04/sort.compatible.other_scene_never: tracks of different scenes are never compatible");
-    assert!(gap <= max_idle as u128 || !r, "C03,C04/sort.compatible.expired_never: an epoch gap above max_idle_epochs is never compatible (so the timing of the tracker-wide collection, which calls for other scenes influence, cannot change a scene's grouping)");
+    assert!(a.scene_id == b.scene_id || !r, "C02,C04/sort.compatible.other_scene_never: tracks of different scenes are never compatible");
+    assert!(gap <= max_idle as u128 || !r, "C02,C03,C04/sort.compatible.expired_never: an epoch gap above max_idle_epochs is never compatible (so the timing of the tracker-wide collection, which calls for other scenes influence, cannot change a scene's grouping)");
     if a.scene_id == b.scene_id && gap <= max_idle as u128 {
         assert!(val_calls >= 1 && val_args.0 as u128 == gap, "C20/sort.compatible.limit_for_the_epoch_gap: the constraint table is asked for exactly the epoch gap of the pair");
         assert!(val_args.1 == dist.to_bits(), "C20/sort.compatible.distance_is_centre_distance_in_radii: the distance validated is dist_in_2r of the pair");
